@@ -117,6 +117,49 @@ def Mapper.new (t : Table) : Except Panic Mapper :=
       | .error e => .error e
       | .ok imp => .ok { n := t.n, implied := imp }
 
+/-! ### `check_criteria_table` (src/criteria.rs): can this table be mapped at all?
+
+The depth-first search of the code over the custom criteria, with `path` (names on the current
+branch) and `done` (names finished, most recent first).  A name which is not the key of a
+custom criterion (a built-in, or an undefined name) has no outgoing edges.  `fuel` bounds the
+recursion depth; every level pushes a name that is not on `path`, so `t.n + 1` suffices. -/
+
+/-- `criteria.get(name).implies` -/
+def Table.succs (t : Table) (i : Nat) : List Nat :=
+  if 2 ≤ i then (match t[i - 2]? with | some c => c.implies | none => []) else []
+
+/-- the `for implied in &entry.implies { visit(..)? }` loop, recursive call abstracted -/
+def dfsChildren (rec : Nat → List Nat → Option (List Nat)) : List Nat → List Nat → Option (List Nat)
+  | [], done => some done
+  | c :: cs, done =>
+    match rec c done with
+    | none => none
+    | some done' => dfsChildren rec cs done'
+
+/-- `visit(criteria, name, path, done)`: `none` = `Err("criteria '..' implies itself")` -/
+def dfsVisit (t : Table) : Nat → List Nat → Nat → List Nat → Option (List Nat)
+  | 0, _, _, _ => none
+  | fuel + 1, path, name, done =>
+    if done.contains name then some done
+    else if path.contains name then none
+    else match dfsChildren (dfsVisit t fuel (name :: path)) (t.succs name) done with
+      | none => none
+      | some done' => some (name :: done')
+
+/-- the outer `for name in criteria.keys()` loop -/
+def dfsAll (t : Table) : List Nat → List Nat → Option (List Nat)
+  | [], done => some done
+  | name :: rest, done =>
+    match dfsVisit t (t.n + 1) [] name done with
+    | none => none
+    | some done' => dfsAll t rest done'
+
+/-- `check_criteria_table(..).is_ok()`: no built-in redefined, at most 64 criteria, no
+criterion on an implication cycle -/
+def checkTable (t : Table) : Bool :=
+  !t.any (fun c => c.clash != 0) && decide (t.n ≤ 64) &&
+    (dfsAll t ((List.range t.length).map (· + 2)) []).isSome
+
 /-- `criteria_from_list`: union of the closures; unknown name = index panic. -/
 def Mapper.fromList (m : Mapper) : List Nat → Except Panic CSet
   | [] => .ok 0
